@@ -4,6 +4,7 @@ CONSTANTS
   PEERS = {"p1", "p2", "p3"}
   Thr = 1
   CheckMode = "once"
+  ForgetMode = "name"
   RenewMode = "restart"
   W = 3
   AccN = 6
